@@ -20,16 +20,21 @@ MODELLED_NOT_VERIFIED = [
     "C15: the Lean machines are hand-written from Node.preorder_iter/postorder_iter/levelorder_iter/leaf_iter/inorder_iter/"
     "ageorder_iter/ancestor_iter/apply and Tree.preorder_edge_iter/postorder_edge_iter and the wrappers; tied to the code "
     "by the per-case comparison of visit sequences",
-    "C15: Node.apply and ancestor_iter climb parent pointers; the model tree has none, so applyRun/pushKids and ancPath are "
-    "functional renderings (closer lists / the path computed on the way down), not the code's control flow",
+    "C15: Node.apply climbs parent pointers; the model tree has none. applyRun/pushKids (closer lists) is proved equal to a "
+    "zipper machine whose climb is the code's while loop over (ancestor, is-last-child) pairs; reading that zipper off a "
+    "parent array is not proved (per-case comparison only). ancestor_iter: the pointer climb over the parent array is "
+    "proved equal to the model (ancestor_pointer_refinement)",
     "C15: Python generator suspension (a tree mutated during iteration) is outside the statement; a filter is a set of "
     "accepted node ids - what the callable returns for them (bool or any truthy/falsy object) is varied on the Python side only",
     "C15: age order: the model sorts stably (as list.sort does); the statement asks only for monotone age, so model and "
     "implementation are compared up to the order inside groups of equal age",
-    "C15: ids of the nodes of a protocol tree are distinct (pre-order numbers); internal_nodes_spec/tree_internal_lists_spec "
-    "take this as a hypothesis",
 ]
-EXPLANATION = ("Theorems, all about the definitions the driver runs: each machine = its defining order for every tree, start "
+EXPLANATION = ("Extension round: protocol_ids_distinct / protocol_subtree_ids_distinct (every tree parseTree returns has distinct ids, "
+               "for any parent array), internal_nodes_driver_spec / tree_internal_lists_driver_spec (no id hypothesis left), "
+               "ancestor_pointer_refinement (ancIter = the pointer climb over the parent array, driver kind ancptr), "
+               "levelorder_generations / levelorder_depth_monotone (explicit non-decreasing depths), apply_dyck (labelled Dyck word, "
+               "opens in pre-order, closes in post-order), apply_zipper_refinement_partial (zipper climb = closer lists; zipper "
+               "<-> parent array not proved). Theorems, all about the definitions the driver runs: each machine = its defining order for every tree, start "
                "and filter (preorder_spec, postorder_spec, levelorder_spec, leaf_spec, inorder_spec, filtered_spec, "
                "edge_iter_spec + edge_order_spec, wrapped_edge_iter_spec for the level/leaf/in-order edge iterators, "
                "each_node_once, len_spec, apply_spec, tree_lists_spec, tree_internal_lists_spec); internal_nodes_spec: "
@@ -300,10 +305,14 @@ def impl(c, w, seed, obj, cap=None):
     if kind == "post":
         return N(t.postorder_node_iter(nf) if t is not None else seed.postorder_iter(nf))
     if kind == "level":
+        if c["alt"]:   # deprecated aliases
+            return N(t.level_order_node_iter(nf) if t is not None else seed.level_order_iter(nf))
         return N(t.levelorder_node_iter(nf) if t is not None else seed.levelorder_iter(nf))
     if kind == "leaf":
         if c["alt"] and acc is None and t is None:
             return N(seed.leaf_nodes())
+        if c["alt"] and t is not None:
+            return N(t.leaf_iter(nf))   # deprecated alias
         return N(t.leaf_node_iter(nf) if t is not None else seed.leaf_iter(nf))
     if kind == "in":
         return N(t.inorder_node_iter(nf) if t is not None else seed.inorder_iter(nf))
@@ -323,7 +332,7 @@ def impl(c, w, seed, obj, cap=None):
     if kind == "postintedge":
         return E(t.postorder_internal_edge_iter(ef, excl))
     if kind == "leveledge":
-        return E(t.levelorder_edge_iter(ef))
+        return E(t.level_order_edge_iter(ef) if c["alt"] else t.levelorder_edge_iter(ef))
     if kind == "leafedge":
         return E(t.leaf_edge_iter(ef))
     if kind == "inedge":
@@ -356,6 +365,9 @@ def impl(c, w, seed, obj, cap=None):
             nd.age = float(ages[i])
         desc = "desc" in kind
         incl = not kind.endswith("int")
+        if c["alt"]:   # deprecated aliases
+            return N(t.age_order_node_iter(include_leaves=incl, filter_fn=nf, descending=desc) if t is not None
+                     else seed.age_order_iter(include_leaves=incl, filter_fn=nf, descending=desc))
         return N(t.ageorder_node_iter(include_leaves=incl, filter_fn=nf, descending=desc) if t is not None
                  else seed.ageorder_iter(filter_fn=nf, include_leaves=incl, descending=desc))
     raise ValueError(kind)
@@ -458,6 +470,10 @@ def one_case(ctx, dendropy, c, pending):
         kind, start, 1 if (via == "subtree" and start != 0) else 0, 1 if c["excl"] else 0, 1 if c["incl"] else 0, filt,
         ",".join(tu.frac(a) for a in ages) if kind in AGE else "-", " ".join(c["tree"]))
     pending.append((line, c, canon))
+    if kind == "apply":   # the zipper machine (apply_zipper_refinement_partial) must say the same
+        pending.append((line.replace("iter apply ", "iter applyzip ", 1), c, canon))
+    if kind == "anc":   # the pointer-level climb over the parent array (ancestor_pointer_refinement) must say the same
+        pending.append((line.replace("iter anc ", "iter ancptr ", 1), c, canon))
 
 
 def classify(c, got, unfiltered, default):
